@@ -34,10 +34,13 @@ CHUNK = 10
 
 
 def program_sets(tier):
-    return [("gen", dict()),
+    return ([("gen", dict()),
             # rich signatures (positional-only, defaults, *rest, keyword-only, **kw, docstring) on small programs
-            ("sig", dict(size=1 if tier == "quick" else 2, sigs=("rich", "kwonly", "doc", "closure-default"), key=("c01sig", tier))),
-            C.odd_set(tier)] + C.core3_sets(tier)
+            ("sig", dict(size=1 if tier == "quick" else 2, sigs=("rich", "kwonly", "doc", "closure-default", "closure-annot"), key=("c01sig", tier))),
+            C.odd_set(tier),
+            # a local variable annotated with a name that does not exist at run time (Python never evaluates it)
+            ("annundef", dict(size=2, only=M.ODD_BASE | {"ann-undefined"}, must=frozenset({"ann-undefined"}), key=("annundef", tier)))]
+            + C.core3_sets(tier))
 
 
 def units(tier):
